@@ -322,6 +322,191 @@ Section Sem.
     | _ :: rest => import_object_type objtag rest
     end.
 
+  (** ---- hand-written decoders, written with open recursion: [dty] decodes a value of a
+      type under a tag ([dec_ty] one fuel unit down), [dopt] is d.Opt, [dobj] NewObjectForType
+      followed by d.Any(&pl.Object), [dtrees] the loop of ttlv.Struct.TagDecodeTTLV. *)
+  Section Customs.
+    Variable dty : vstate -> ty -> Z -> cur R -> dres.
+    Variable dopt : vstate -> ty -> Z -> cur R -> dres.
+    Variable dobj : vstate -> Z -> cur R -> dres.
+    Variable dtrees : cur R -> res (list item * cur R).
+
+    (** d.Struct(tag, body) producing the struct value [n] *)
+    Definition wrap_struct (n : string) (tag : Z) (c : cur R)
+        (body : cur R -> res (list value * cur R * vstate)) : dres :=
+      do r <- c_struct F tag (fun sub => do x <- body sub ;; Ok ((fst (fst x), snd x), snd (fst x))) c ;;
+      Ok (VStruct n (fst (fst r)), snd r, snd (fst r)).
+
+    Definition int_of (v : value) : Z := match v with VInt z => z | _ => 0 end.
+
+    (** newRequestPayload / newResponsePayload + d.TagAny(tag, &payload) *)
+    Definition dec_payload (st : vstate) (side : bool) (opv tag : Z) (c : cur R) : dres :=
+      match lookup_op opv with
+      | Some (rq, rs) =>
+        let n := if side then rs else rq in
+        do r <- dty st (TNamed n) tag c ;;
+        Ok (VIface (TPtr (TNamed n)) (VPtr (fst (fst r))), snd (fst r), snd r)
+      | None =>
+        do r <- c_struct F tag dtrees c ;;
+        Ok (VIface (TPtr (TNamed "kmip.UnknownPayload")) (VPtr (VStruct "kmip.UnknownPayload" [VInt opv; VList (map VTree (fst r))])), snd r, st)
+      end.
+
+    (** RequestBatchItem.TagDecodeTTLV *)
+    Definition dec_request_item (st : vstate) (d : tdef) (tag : Z) (c : cur R) : dres :=
+      wrap_struct (t_name d) tag c (fun c0 =>
+        do op <- dty st (fty d 0) (ftag d 0) c0 ;;
+        do id <- dopt st (fty d 1) (ftag d 1) (snd (fst op)) ;;
+        do pl <- dec_payload st false (int_of (fst (fst op))) (ftag d 2) (snd (fst id)) ;;
+        do ext <- dopt st (fty d 3) (ftag d 3) (snd (fst pl)) ;;
+        Ok ([fst (fst op); fst (fst id); fst (fst pl); fst (fst ext)], snd (fst ext), st)).
+
+    (** ResponseBatchItem.TagDecodeTTLV (after fix 79e1dd7) *)
+    Definition dec_response_item (st : vstate) (d : tdef) (tag : Z) (c : cur R) : dres :=
+      wrap_struct (t_name d) tag c (fun c0 =>
+        do op <- dopt st (fty d 0) (ftag d 0) c0 ;;
+        do id <- dopt st (fty d 1) (ftag d 1) (snd (fst op)) ;;
+        do status <- dty st (fty d 2) (ftag d 2) (snd (fst id)) ;;
+        do reason <- dopt st (fty d 3) (ftag d 3) (snd (fst status)) ;;
+        do msg <- dopt st (fty d 4) (ftag d 4) (snd (fst reason)) ;;
+        do acv <- dopt st (fty d 5) (ftag d 5) (snd (fst msg)) ;;
+        let opv := int_of (fst (fst op)) in
+        do pl <-
+          (if (0 <? opv) && (c_tag (snd (fst acv)) =? ftag d 6)
+           then dec_payload st true opv (ftag d 6) (snd (fst acv))
+           else Ok (VNil, snd (fst acv), st)) ;;
+        do ext <- dopt st (fty d 7) (ftag d 7) (snd (fst pl)) ;;
+        Ok ([fst (fst op); fst (fst id); fst (fst status); fst (fst reason); fst (fst msg); fst (fst acv); fst (fst pl); fst (fst ext)],
+            snd (fst ext), st)).
+
+    (** Credential.TagDecodeTTLV + CredentialValue.decode *)
+    Definition dec_credential (st : vstate) (d : tdef) (tag : Z) (c : cur R) : dres :=
+      wrap_struct (t_name d) tag c (fun c0 =>
+        do ct <- dty st (fty d 0) (ftag d 0) c0 ;;
+        let ctv := int_of (fst (fst ct)) in
+        match find_tdef S "kmip.CredentialValue" with
+        | None => Panic
+        | Some cv =>
+          let c1 := snd (fst ct) in
+          let vtag := ftag d 1 in
+          if ctv =? 1 then do r <- dty st (fty cv 0) vtag c1 ;; Ok ([fst (fst ct); VStruct "kmip.CredentialValue" [fst (fst r); VNil; VNil]], snd (fst r), st)
+          else if ctv =? 2 then do r <- dty st (fty cv 1) vtag c1 ;; Ok ([fst (fst ct); VStruct "kmip.CredentialValue" [VNil; fst (fst r); VNil]], snd (fst r), st)
+          else if ctv =? 3 then do r <- dty st (fty cv 2) vtag c1 ;; Ok ([fst (fst ct); VStruct "kmip.CredentialValue" [VNil; VNil; fst (fst r)]], snd (fst r), st)
+          else Err
+        end).
+
+    (** KeyMaterial.decode: which slot a key format designates *)
+    Definition key_slot (fmtv : Z) : option nat :=
+      if (fmtv =? 1) || (fmtv =? 2) || (fmtv =? 3) || (fmtv =? 4) || (fmtv =? 5) || (fmtv =? 6) then Some 0%nat
+      else if fmtv =? 7 then Some 1%nat        (* TransparentSymmetricKey *)
+      else if fmtv =? 10 then Some 2%nat       (* TransparentRSAPrivateKey *)
+      else if fmtv =? 11 then Some 3%nat       (* TransparentRSAPublicKey *)
+      else if fmtv =? 14 then Some 4%nat       (* TransparentECDSAPrivateKey *)
+      else if fmtv =? 15 then Some 5%nat       (* TransparentECDSAPublicKey *)
+      else if fmtv =? 20 then Some 6%nat       (* TransparentECPrivateKey *)
+      else if fmtv =? 21 then Some 7%nat       (* TransparentECPublicKey *)
+      else None.
+
+    (** KeyValue.decode / PlainKeyValue.decode / KeyMaterial.decode *)
+    Definition dec_key_value (st : vstate) (fmtv : Z) (tag : Z) (c2 : cur R) : dres :=
+      if c_type c2 =? T_BYTES then
+        do r <- c_bytes F tag c2 ;;
+        Ok (VPtr (VStruct "kmip.KeyValue" [VPtr (VStr (fst r)); VNil]), snd r, st)
+      else if c_type c2 =? T_STRUCT then
+        match find_tdef S "kmip.PlainKeyValue", find_tdef S "kmip.KeyMaterial" with
+        | Some pkv, Some km =>
+          do r <- c_struct F tag (fun sub =>
+               match key_slot fmtv with
+               | None => Err
+               | Some k =>
+                 do m <- dty st (fty km k) (ftag pkv 0) sub ;;
+                 let slots := map (fun i => if Nat.eqb i k then fst (fst m) else VNil) (seq 0 8) in
+                 do at_ <- dty st (fty pkv 1) (ftag pkv 1) (snd (fst m)) ;;
+                 Ok (VStruct "kmip.PlainKeyValue" [VStruct "kmip.KeyMaterial" slots; fst (fst at_)], snd (fst at_))
+               end) c2 ;;
+          Ok (VPtr (VStruct "kmip.KeyValue" [VNil; VPtr (fst r)]), snd r, st)
+        | _, _ => Panic
+        end
+      else Err.
+
+    (** KeyBlock.TagDecodeTTLV *)
+    Definition dec_key_block (st : vstate) (d : tdef) (tag : Z) (c : cur R) : dres :=
+      wrap_struct (t_name d) tag c (fun c0 =>
+        do kft <- dty st (fty d 0) (ftag d 0) c0 ;;
+        do kct <- dopt st (fty d 1) (ftag d 1) (snd (fst kft)) ;;
+        let c2 := snd (fst kct) in
+        do kv <- (if c_tag c2 =? ftag d 2 then dec_key_value st (int_of (fst (fst kft))) (ftag d 2) c2 else Ok (VNil, c2, st)) ;;
+        do alg <- dopt st (fty d 3) (ftag d 3) (snd (fst kv)) ;;
+        do ln <- dopt st (fty d 4) (ftag d 4) (snd (fst alg)) ;;
+        do kwd <- dty st (fty d 5) (ftag d 5) (snd (fst ln)) ;;
+        Ok ([fst (fst kft); fst (fst kct); fst (fst kv); fst (fst alg); fst (fst ln); fst (fst kwd)], snd (fst kwd), st)).
+
+    (** Attribute.TagDecodeTTLV *)
+    Definition dec_attribute (st : vstate) (d : tdef) (tag : Z) (c : cur R) : dres :=
+      wrap_struct (t_name d) tag c (fun c0 =>
+        do nm <- c_text F (ftag d 0) c0 ;;
+        do idx <-
+          (if c_tag (snd nm) =? ftag d 1 then
+             do r <- c_integer F (ftag d 1) (snd nm) ;; Ok (VPtr (VInt (fst r)), snd r)
+           else Ok (VNil, snd nm)) ;;
+        let aty := attr_ty (fst nm) in
+        do v <- dty st aty (ftag d 2) (snd idx) ;;
+        Ok ([VStr (fst nm); fst idx; VIface aty (fst (fst v))], snd (fst v), st)).
+
+    (** payloads.GetResponsePayload.TagDecodeTTLV *)
+    Definition dec_get_response (st : vstate) (d : tdef) (tag : Z) (c : cur R) : dres :=
+      wrap_struct (t_name d) tag c (fun c0 =>
+        do ot <- dty st (fty d 0) (ftag d 0) c0 ;;
+        do uid <- dty st (fty d 1) (ftag d 1) (snd (fst ot)) ;;
+        do ob <- dobj st (int_of (fst (fst ot))) (snd (fst uid)) ;;
+        Ok ([fst (fst ot); fst (fst uid); fst (fst ob)], snd (fst ob), st)).
+
+    (** payloads.RegisterRequestPayload.TagDecodeTTLV *)
+    Definition dec_register_request (st : vstate) (d : tdef) (tag : Z) (c : cur R) : dres :=
+      wrap_struct (t_name d) tag c (fun c0 =>
+        do ot <- dty st (fty d 0) (ftag d 0) c0 ;;
+        do ta <- dty st (fty d 1) (ftag d 1) (snd (fst ot)) ;;
+        do ob <- dobj st (int_of (fst (fst ot))) (snd (fst ta)) ;;
+        Ok ([fst (fst ot); fst (fst ta); fst (fst ob)], snd (fst ob), st)).
+
+    (** payloads.ExportResponsePayload.TagDecodeTTLV *)
+    Definition dec_export_response (st : vstate) (d : tdef) (tag : Z) (c : cur R) : dres :=
+      wrap_struct (t_name d) tag c (fun c0 =>
+        do ot <- dty st (fty d 0) (ftag d 0) c0 ;;
+        do uid <- dty st (fty d 1) (ftag d 1) (snd (fst ot)) ;;
+        do at_ <- dty st (fty d 2) (ftag d 2) (snd (fst uid)) ;;
+        do ob <- dobj st (int_of (fst (fst ot))) (snd (fst at_)) ;;
+        Ok ([fst (fst ot); fst (fst uid); fst (fst at_); fst (fst ob)], snd (fst ob), st)).
+
+    (** payloads.ImportRequestPayload.TagDecodeTTLV (after fix ec220f8) *)
+    Definition dec_import_request (st : vstate) (d : tdef) (tag : Z) (c : cur R) : dres :=
+      wrap_struct (t_name d) tag c (fun c0 =>
+        do uid <- dty st (fty d 0) (ftag d 0) c0 ;;
+        do rep <- dopt st (fty d 1) (ftag d 1) (snd (fst uid)) ;;
+        do kwt <- dopt st (fty d 2) (ftag d 2) (snd (fst rep)) ;;
+        do at_ <- dty st (fty d 3) (ftag d 3) (snd (fst kwt)) ;;
+        let objtag := match find_tdef S "payloads.GetResponsePayload" with Some g => ftag g 0 | None => 0 end in
+        match (match fst (fst at_) with VList l => import_object_type objtag l | _ => None end) with
+        | None => Err
+        | Some otv =>
+          do ob <- dobj st otv (snd (fst at_)) ;;
+          Ok ([fst (fst uid); fst (fst rep); fst (fst kwt); fst (fst at_); fst (fst ob)], snd (fst ob), st)
+        end).
+
+    (** which hand-written decoder a type name selects *)
+    Definition dec_custom_of (st : vstate) (d : tdef) (tag : Z) (c : cur R) : dres :=
+      let n := t_name d in
+      if String.eqb n "kmip.RequestBatchItem" then dec_request_item st d tag c
+      else if String.eqb n "kmip.ResponseBatchItem" then dec_response_item st d tag c
+      else if String.eqb n "kmip.Credential" then dec_credential st d tag c
+      else if String.eqb n "kmip.KeyBlock" then dec_key_block st d tag c
+      else if String.eqb n "kmip.Attribute" then dec_attribute st d tag c
+      else if String.eqb n "payloads.GetResponsePayload" then dec_get_response st d tag c
+      else if String.eqb n "payloads.RegisterRequestPayload" then dec_register_request st d tag c
+      else if String.eqb n "payloads.ExportResponsePayload" then dec_export_response st d tag c
+      else if String.eqb n "payloads.ImportRequestPayload" then dec_import_request st d tag c
+      else Panic.
+  End Customs.
+
   Fixpoint dec_ty (fuel : nat) (st : vstate) (t : ty) (tag : Z) (c : cur R) {struct fuel} : dres :=
     match fuel with
     | O => OutOfFuel
@@ -342,7 +527,8 @@ Section Sem.
         else
           match find_tdef S n with
           | Some d =>
-            if t_custom_dec d then dec_custom f st d tag c
+            if t_custom_dec d then
+              dec_custom_of (dec_ty f) (dec_opt f) (dec_object f) (dec_fields F f) st d tag c
             else
               do r <- c_struct F tag (fun sub => do x <- dec_fields_s f st (t_fields d) sub ;; Ok ((fst (fst x), snd x), snd (fst x))) c ;;
               Ok (VStruct n (fst (fst r)), snd r, snd (fst r))
@@ -397,164 +583,6 @@ Section Sem.
         do r <- dec_ty f st (TNamed n) (deftag_of S (TNamed n)) c ;;
         Ok (VIface (TPtr (TNamed n)) (VPtr (fst (fst r))), snd (fst r), snd r)
       end
-    end
-  with dec_custom (fuel : nat) (st : vstate) (d : tdef) (tag : Z) (c : cur R) {struct fuel} : dres :=
-    match fuel with
-    | O => OutOfFuel
-    | Datatypes.S f =>
-      let n := t_name d in
-      let wrap (body : cur R -> res (list value * cur R * vstate)) : dres :=
-        do r <- c_struct F tag (fun sub => do x <- body sub ;; Ok ((fst (fst x), snd x), snd (fst x))) c ;;
-        Ok (VStruct n (fst (fst r)), snd r, snd (fst r)) in
-      if String.eqb n "kmip.RequestBatchItem" then
-        (* RequestBatchItem.TagDecodeTTLV *)
-        wrap (fun c0 =>
-          do op <- dec_ty f st (fty d 0) (ftag d 0) c0 ;;
-          do id <- dec_opt f st (fty d 1) (ftag d 1) (snd (fst op)) ;;
-          let opv := match fst (fst op) with VInt z => z | _ => 0 end in
-          do pl <-
-            (match lookup_op opv with
-             | Some (rq, _) =>
-               do r <- dec_ty f st (TNamed rq) (ftag d 2) (snd (fst id)) ;;
-               Ok (VIface (TPtr (TNamed rq)) (VPtr (fst (fst r))), snd (fst r), snd r)
-             | None =>
-               do r <- c_struct F (ftag d 2) (dec_fields F f) (snd (fst id)) ;;
-               Ok (VIface (TPtr (TNamed "kmip.UnknownPayload")) (VPtr (VStruct "kmip.UnknownPayload" [VInt opv; VList (map VTree (fst r))])), snd r, st)
-             end) ;;
-          do ext <- dec_opt f st (fty d 3) (ftag d 3) (snd (fst pl)) ;;
-          Ok ([fst (fst op); fst (fst id); fst (fst pl); fst (fst ext)], snd (fst ext), st))
-      else if String.eqb n "kmip.ResponseBatchItem" then
-        (* ResponseBatchItem.TagDecodeTTLV (after fix 79e1dd7) *)
-        wrap (fun c0 =>
-          do op <- dec_opt f st (fty d 0) (ftag d 0) c0 ;;
-          do id <- dec_opt f st (fty d 1) (ftag d 1) (snd (fst op)) ;;
-          do status <- dec_ty f st (fty d 2) (ftag d 2) (snd (fst id)) ;;
-          do reason <- dec_opt f st (fty d 3) (ftag d 3) (snd (fst status)) ;;
-          do msg <- dec_opt f st (fty d 4) (ftag d 4) (snd (fst reason)) ;;
-          do acv <- dec_opt f st (fty d 5) (ftag d 5) (snd (fst msg)) ;;
-          let opv := match fst (fst op) with VInt z => z | _ => 0 end in
-          do pl <-
-            (if (0 <? opv) && (c_tag (snd (fst acv)) =? ftag d 6) then
-               match lookup_op opv with
-               | Some (_, rs) =>
-                 do r <- dec_ty f st (TNamed rs) (ftag d 6) (snd (fst acv)) ;;
-                 Ok (VIface (TPtr (TNamed rs)) (VPtr (fst (fst r))), snd (fst r), snd r)
-               | None =>
-                 do r <- c_struct F (ftag d 6) (dec_fields F f) (snd (fst acv)) ;;
-                 Ok (VIface (TPtr (TNamed "kmip.UnknownPayload")) (VPtr (VStruct "kmip.UnknownPayload" [VInt opv; VList (map VTree (fst r))])), snd r, st)
-               end
-             else Ok (VNil, snd (fst acv), st)) ;;
-          do ext <- dec_opt f st (fty d 7) (ftag d 7) (snd (fst pl)) ;;
-          Ok ([fst (fst op); fst (fst id); fst (fst status); fst (fst reason); fst (fst msg); fst (fst acv); fst (fst pl); fst (fst ext)],
-              snd (fst ext), st))
-      else if String.eqb n "kmip.Credential" then
-        (* Credential.TagDecodeTTLV + CredentialValue.decode *)
-        wrap (fun c0 =>
-          do ct <- dec_ty f st (fty d 0) (ftag d 0) c0 ;;
-          let ctv := match fst (fst ct) with VInt z => z | _ => 0 end in
-          match find_tdef S "kmip.CredentialValue" with
-          | None => Panic
-          | Some cv =>
-            let c1 := snd (fst ct) in
-            let vtag := ftag d 1 in
-            if ctv =? 1 then do r <- dec_ty f st (fty cv 0) vtag c1 ;; Ok ([fst (fst ct); VStruct "kmip.CredentialValue" [fst (fst r); VNil; VNil]], snd (fst r), st)
-            else if ctv =? 2 then do r <- dec_ty f st (fty cv 1) vtag c1 ;; Ok ([fst (fst ct); VStruct "kmip.CredentialValue" [VNil; fst (fst r); VNil]], snd (fst r), st)
-            else if ctv =? 3 then do r <- dec_ty f st (fty cv 2) vtag c1 ;; Ok ([fst (fst ct); VStruct "kmip.CredentialValue" [VNil; VNil; fst (fst r)]], snd (fst r), st)
-            else Err
-          end)
-      else if String.eqb n "kmip.KeyBlock" then
-        (* KeyBlock.TagDecodeTTLV, KeyValue.decode, PlainKeyValue.decode, KeyMaterial.decode *)
-        wrap (fun c0 =>
-          do kft <- dec_ty f st (fty d 0) (ftag d 0) c0 ;;
-          do kct <- dec_opt f st (fty d 1) (ftag d 1) (snd (fst kft)) ;;
-          let fmtv := match fst (fst kft) with VInt z => z | _ => 0 end in
-          let c2 := snd (fst kct) in
-          do kv <-
-            (if c_tag c2 =? ftag d 2 then
-               if c_type c2 =? T_BYTES then
-                 do r <- c_bytes F (ftag d 2) c2 ;;
-                 Ok (VPtr (VStruct "kmip.KeyValue" [VPtr (VStr (fst r)); VNil]), snd r, st)
-               else if c_type c2 =? T_STRUCT then
-                 match find_tdef S "kmip.PlainKeyValue", find_tdef S "kmip.KeyMaterial" with
-                 | Some pkv, Some km =>
-                   do r <- c_struct F (ftag d 2) (fun sub =>
-                        (* KeyMaterial.decode(d, TagKeyMaterial, format) *)
-                        let mtag := ftag pkv 0 in
-                        let slot : option nat :=
-                          if (fmtv =? 1) || (fmtv =? 2) || (fmtv =? 3) || (fmtv =? 4) || (fmtv =? 5) || (fmtv =? 6) then Some 0%nat
-                          else if fmtv =? 7 then Some 1%nat        (* TransparentSymmetricKey *)
-                          else if fmtv =? 10 then Some 2%nat       (* TransparentRSAPrivateKey *)
-                          else if fmtv =? 11 then Some 3%nat       (* TransparentRSAPublicKey *)
-                          else if fmtv =? 14 then Some 4%nat       (* TransparentECDSAPrivateKey *)
-                          else if fmtv =? 15 then Some 5%nat       (* TransparentECDSAPublicKey *)
-                          else if fmtv =? 20 then Some 6%nat       (* TransparentECPrivateKey *)
-                          else if fmtv =? 21 then Some 7%nat       (* TransparentECPublicKey *)
-                          else None in
-                        match slot with
-                        | None => Err
-                        | Some k =>
-                          do m <- dec_ty f st (fty km k) mtag sub ;;
-                          let slots := map (fun i => if Nat.eqb i k then fst (fst m) else VNil) (seq 0 8) in
-                          do at_ <- dec_ty f st (fty pkv 1) (ftag pkv 1) (snd (fst m)) ;;
-                          Ok (VStruct "kmip.PlainKeyValue" [VStruct "kmip.KeyMaterial" slots; fst (fst at_)], snd (fst at_))
-                        end) c2 ;;
-                   Ok (VPtr (VStruct "kmip.KeyValue" [VNil; VPtr (fst r)]), snd r, st)
-                 | _, _ => Panic
-                 end
-               else Err
-             else Ok (VNil, c2, st)) ;;
-          do alg <- dec_opt f st (fty d 3) (ftag d 3) (snd (fst kv)) ;;
-          do ln <- dec_opt f st (fty d 4) (ftag d 4) (snd (fst alg)) ;;
-          do kwd <- dec_ty f st (fty d 5) (ftag d 5) (snd (fst ln)) ;;
-          Ok ([fst (fst kft); fst (fst kct); fst (fst kv); fst (fst alg); fst (fst ln); fst (fst kwd)], snd (fst kwd), st))
-      else if String.eqb n "kmip.Attribute" then
-        (* Attribute.TagDecodeTTLV *)
-        wrap (fun c0 =>
-          do nm <- c_text F (ftag d 0) c0 ;;
-          do idx <-
-            (if c_tag (snd nm) =? ftag d 1 then
-               do r <- c_integer F (ftag d 1) (snd nm) ;; Ok (VPtr (VInt (fst r)), snd r)
-             else Ok (VNil, snd nm)) ;;
-          let aty := attr_ty (fst nm) in
-          do v <- dec_ty f st aty (ftag d 2) (snd idx) ;;
-          Ok ([VStr (fst nm); fst idx; VIface aty (fst (fst v))], snd (fst v), st))
-      else if String.eqb n "payloads.GetResponsePayload" then
-        wrap (fun c0 =>
-          do ot <- dec_ty f st (fty d 0) (ftag d 0) c0 ;;
-          do uid <- dec_ty f st (fty d 1) (ftag d 1) (snd (fst ot)) ;;
-          let otv := match fst (fst ot) with VInt z => z | _ => 0 end in
-          do ob <- dec_object f st otv (snd (fst uid)) ;;
-          Ok ([fst (fst ot); fst (fst uid); fst (fst ob)], snd (fst ob), st))
-      else if String.eqb n "payloads.RegisterRequestPayload" then
-        wrap (fun c0 =>
-          do ot <- dec_ty f st (fty d 0) (ftag d 0) c0 ;;
-          do ta <- dec_ty f st (fty d 1) (ftag d 1) (snd (fst ot)) ;;
-          let otv := match fst (fst ot) with VInt z => z | _ => 0 end in
-          do ob <- dec_object f st otv (snd (fst ta)) ;;
-          Ok ([fst (fst ot); fst (fst ta); fst (fst ob)], snd (fst ob), st))
-      else if String.eqb n "payloads.ExportResponsePayload" then
-        wrap (fun c0 =>
-          do ot <- dec_ty f st (fty d 0) (ftag d 0) c0 ;;
-          do uid <- dec_ty f st (fty d 1) (ftag d 1) (snd (fst ot)) ;;
-          do at_ <- dec_ty f st (fty d 2) (ftag d 2) (snd (fst uid)) ;;
-          let otv := match fst (fst ot) with VInt z => z | _ => 0 end in
-          do ob <- dec_object f st otv (snd (fst at_)) ;;
-          Ok ([fst (fst ot); fst (fst uid); fst (fst at_); fst (fst ob)], snd (fst ob), st))
-      else if String.eqb n "payloads.ImportRequestPayload" then
-        (* ImportRequestPayload.TagDecodeTTLV (after fix ec220f8) *)
-        wrap (fun c0 =>
-          do uid <- dec_ty f st (fty d 0) (ftag d 0) c0 ;;
-          do rep <- dec_opt f st (fty d 1) (ftag d 1) (snd (fst uid)) ;;
-          do kwt <- dec_opt f st (fty d 2) (ftag d 2) (snd (fst rep)) ;;
-          do at_ <- dec_ty f st (fty d 3) (ftag d 3) (snd (fst kwt)) ;;
-          let objtag := match find_tdef S "payloads.GetResponsePayload" with Some g => ftag g 0 | None => 0 end in
-          match (match fst (fst at_) with VList l => import_object_type objtag l | _ => None end) with
-          | None => Err
-          | Some otv =>
-            do ob <- dec_object f st otv (snd (fst at_)) ;;
-            Ok ([fst (fst uid); fst (fst rep); fst (fst kwt); fst (fst at_); fst (fst ob)], snd (fst ob), st)
-          end)
-      else Panic
     end.
 
 End Sem.
